@@ -128,16 +128,18 @@ def f_alphabets(tier):
 
 def f_configs(tier):
     if tier == "quick":
-        wins, thrs, ws = [1, 2, 3], [0, 1, 3, 5, NEVER], [0.5, 0.9, 1.0]
+        wins, thrs, ws = [1, 2, 3], [0, 1, 3, 5, NEVER], [0.5, 0.9, 1.0, 1.5]
     else:
-        wins, thrs, ws = [1, 2, 3, 4], [0, 1, 2, 3, 5, 8, NEVER], [0.0, 0.5, 0.9, 1.0]
+        wins, thrs, ws = [1, 2, 3, 4], [0, 1, 2, 3, 5, 8, NEVER], [0.0, 0.5, 0.9, 1.0, 1.5]  # > 1 is documented for negative returns
     out = []
     for win, thr in itertools.product(wins, thrs):
         starts = [0]
         if thr not in (0, NEVER):
             # resumed runs: train_td7 starts with epoch = global_step - learning_starts > 0
             starts += sorted({thr - 1, thr, thr + 2} - {0}) if tier != "quick" else ([thr - 1] if thr > 1 else [])
-        out.append((win, thr, ws, starts))
+        # initial window (CheckpointState.max_episodes_before_update is a public field; train_td7 uses 1)
+        iws = [1] if thr in (0, NEVER) else ([1, 3] if tier == "quick" else [1, 2, 3])
+        out.append((win, thr, ws, starts, iws))
     return out
 
 
@@ -151,8 +153,9 @@ def f_make(cfg, col):
     bd = FB()
     bd.cfg = cfg
     bd.col = col
-    bd.cs = CheckpointState()
+    bd.cs = CheckpointState(max_episodes_before_update=cfg.get("iw", 1))
     bd.ref = WindowMachine(cfg["win"], cfg["thr"], cfg["w"])
+    bd.ref.window = cfg.get("iw", 1)
     bd.it = cfg["start"]  # training iterations performed so far (what train_td7 calls epoch)
     bd.impl_switches = 0
     bd.dead = False
@@ -208,7 +211,7 @@ def f_apply(bd, op):
         col.violation(
             SIG.format(F_ENTRY, k),
             dict(
-                config=dict(long_window=cfg["win"], threshold=cfg["thr"], reset_weight=cfg["w"], start_iterations=cfg["start"]),
+                config=dict(long_window=cfg["win"], threshold=cfg["thr"], reset_weight=cfg["w"], start_iterations=cfg["start"], initial_window=cfg.get("iw", 1)),
                 history=bd.hist, iterations_before=it, returned=[bool(upd), int(rel)],
                 reference=dict(checkpoint=r_upd, released=r_rel, window_event=kind, switch=switched,
                                best=ref.best, window=ref.window),
@@ -271,10 +274,10 @@ def f_apply(bd, op):
 def f_work(item, col):
     alph = f_alphabets(item["tier"])
     ops = [(n, r) for n in alph["lengths"] for r in alph["returns"]]
-    for w, start in itertools.product(item["weights"], item["starts"]):
+    for w, start, iw in itertools.product(item["weights"], item["starts"], item.get("iws", [1])):
         cfg = dict(
-            name=f"w{item['win']}-t{item['thr']}-r{w}-s{start}", win=item["win"], thr=item["thr"], w=w,
-            start=start, ops=ops, returns=alph["returns"],
+            name=f"w{item['win']}-t{item['thr']}-r{w}-s{start}" + (f"-iw{iw}" if iw != 1 else ""), win=item["win"], thr=item["thr"], w=w,
+            start=start, ops=ops, returns=alph["returns"], iw=iw,
         )
         res = e1.bfs(
             make=lambda: f_make(cfg, col),
@@ -585,9 +588,9 @@ def l_work(item, col):
 def items(tier, seed):
     out = []
     depth = 24
-    for win, thr, ws, starts in f_configs(tier):
+    for win, thr, ws, starts, iws in f_configs(tier):
         out.append(dict(name=f"function-w{win}-t{thr}", part="function", tier=tier, win=win, thr=thr,
-                        weights=ws, starts=starts, max_depth=depth))
+                        weights=ws, starts=starts, iws=iws, max_depth=depth))
     # the expensive searches first so that the pool balances
     out.sort(key=lambda i: -(i["win"] * (0 if i["thr"] in (0, NEVER) else 1)))
     return out + loop_items(tier, seed)
